@@ -258,6 +258,15 @@ theorem session_established (P : Prims) (hmac : ∀ k m, (P.mac k m).length = 16
   rw [hA, hB]
   exact ⟨cA.1, cB.1, cA.2.2.2, cB.2.2.2, cA.2.1, cB.2.1, cA.2.2.1, cB.2.2.1⟩
 
+/-- v1 detection: a stream that starts with the 16-byte prefix of a v1 version message for this
+network (magic ‖ "version" ‖ 5 zero bytes) makes the responder report ErrUseV1Protocol without
+generating a key or writing a byte (so the caller can fall back to v1 on the same connection). -/
+theorem v1_detected (P : Prims) (K : Kdf) (magic : Nat) (rnd : List UInt8) (gLen : Nat)
+    (decoys : List Nat) (tail : List UInt8) :
+    (responder P K magic rnd gLen decoys (v1Prefix magic ++ tail)).status = .useV1 ∧
+    (responder P K magic rnd gLen decoys (v1Prefix magic ++ tail)).written = [] :=
+  Lemmas.responder_v1 P K magic rnd gLen decoys tail
+
 /-! ### ElligatorSwift: decode ∘ encode = id -/
 
 /-- An ElligatorSwift encoding always decodes to the encoded x-coordinate: whenever
